@@ -726,6 +726,8 @@ impl SideMetadataSpec {
                     let expected_new_byte =
                         (expected_old_byte & !mask) | ((new_metadata.to_u8().unwrap()) << lshift);
 
+                    #[cfg(mmtk_verif)]
+                    crate::verif::sync_point("meta.cas.window", 1);
                     unsafe {
                         meta_addr.compare_exchange::<AtomicU8>(
                             expected_old_byte,
